@@ -181,7 +181,7 @@ SELFCHECKS = [0]
 
 def _checked_limit(sy, v, pre, what):
     """limit0 with an engine self-check: the limit form evaluated at LOG_EPS = log(eps0) must agree
-    with the ORIGINAL symbolic term evaluated at eps = eps0 (eps0 = 1e-6, random admissible z, Q2, x;
+    with the ORIGINAL symbolic term evaluated at eps = eps0 (eps0 = 1e-9, 40-digit arithmetic, random admissible z, Q2, x;
     uninterpreted atoms get the same pseudo-values on both sides) up to the O(eps log^k eps) the
     lemma allows.  A disagreement is a defect of the limit engine: the case becomes undecided."""
     import math
@@ -193,7 +193,7 @@ def _checked_limit(sy, v, pre, what):
     lim = limit0(v, sy.eps, pre)
     if v.is_const:
         return lim
-    eps0 = 1e-6
+    eps0 = 1e-9  # evaluated with 40 digits (below): the genuine remainder C eps log^2 eps is then ~1e-5 even for C ~ 10
     env = find_witness(R.const(0), R.const(1), [c for c in pre if not _mentions(c, sy.eps)], tries=200, seed=7)
     if env:
         env.pop("_lhs", None), env.pop("_rhs", None)
@@ -211,14 +211,20 @@ def _checked_limit(sy, v, pre, what):
                 return lambda *args: 0.25 + (zlib.crc32(repr((name,) + tuple(round(float(x), 9) if isinstance(x, (int, float)) else x for x in args)).encode()) % 10007) / 10007.0
 
         try:
-            a = evalf(v, dict(env), ufs=PseudoValues())
-            b = evalf(R.lift(lim), dict(env), ufs=PseudoValues())
+            # 40-digit arithmetic: the massive NC expressions lose up to 1e-3 of their value to
+            # cancellation in doubles at eps = 1e-6, which is not what is being checked here
+            a = float(evalf(v, dict(env), ufs=PseudoValues(), mp=True))
+            b = float(evalf(R.lift(lim), dict(env), ufs=PseudoValues(), mp=True))
         except Exception:  # noqa  (a function outside its float domain at the random point: no verdict)
             return lim
+        import math as _m
+
+        if not (_m.isfinite(a) and _m.isfinite(b)):
+            return lim  # the 40-digit evaluation left the real domain at this random point: no verdict
         SELFCHECKS[0] += 1
         scale = max(1.0, abs(a), abs(b))
         if not abs(a - b) <= 2e-3 * scale:
-            raise LimitSelfCheckError(f"limit engine self-check failed for {what}: term at eps=1e-6 = {a!r}, limit form = {b!r}")
+            raise LimitSelfCheckError(f"limit engine self-check failed for {what}: term at eps=1e-9 = {a!r}, limit form = {b!r}")
     return lim
 
 
